@@ -41,14 +41,15 @@ const prop = "C03"
 
 // known-finding ids (see /verif/findings.d/c03.json)
 const (
-	fForElse   = "C03-vfor-on-else-member"           // chosen v-else-if / v-else member carrying v-for renders nothing
-	fForIf     = "C03-vfor-on-if-member"             // falsy v-if member carrying v-for: following v-else-if (and its v-else) dropped
-	fClassNil  = "C03-class-object-nil-adds-class"   // :class="{k: x}" adds k for nil / undefined x
-	fClassStr  = "C03-class-object-string-reparsed"  // :class="{k: x}" drops k for strings like "0", " "
-	fShowChain = "C03-vshow-on-chain-member-ignored" // v-show on an element that also carries v-if / v-else(-if) is ignored
+	fForElse   = "C03-vfor-on-else-member"             // chosen v-else-if / v-else member carrying v-for renders nothing
+	fForIf     = "C03-vfor-on-if-member"               // falsy v-if member carrying v-for: following v-else-if (and its v-else) dropped
+	fForSkip   = "C03-vfor-member-after-chosen-branch" // v-else-if chosen; a later member with v-for runs as a loop of its own and lets the v-else render too
+	fClassNil  = "C03-class-object-nil-adds-class"     // :class="{k: x}" adds k for nil / undefined x
+	fClassStr  = "C03-class-object-string-reparsed"    // :class="{k: x}" drops k for strings like "0", " "
+	fShowChain = "C03-vshow-on-chain-member-ignored"   // v-show on an element that also carries v-if / v-else(-if) is ignored
 )
 
-var allFindings = []string{fForElse, fForIf, fClassNil, fClassStr, fShowChain}
+var allFindings = []string{fForElse, fForIf, fForSkip, fClassNil, fClassStr, fShowChain}
 
 func openFindings() map[string]bool {
 	f := kf.Load()
@@ -185,7 +186,7 @@ func TestProp(t *testing.T) {
 
 	// ---- Family A: chain shapes x truth assignments x separators x siblings x placements x member decorations
 	n, failed := 0, 0
-	enumShapes(func(c Case) bool {
+	enumShapes(run.Thorough(), func(c Case) bool {
 		n++
 		if n%shards != shard {
 			return true
@@ -199,6 +200,10 @@ func TestProp(t *testing.T) {
 			rec.Excluded(fForIf)
 			return true
 		}
+		if open[fForSkip] && len(st.forSkipped) > 0 {
+			rec.Excluded(fForSkip)
+			return true
+		}
 		nt, cls := classify(c)
 		if !run.Each(rec, "shape", c, nt, cls, check) {
 			failed++
@@ -206,7 +211,11 @@ func TestProp(t *testing.T) {
 		return failed < 20
 	})
 	if failed == 0 {
-		rec.Exhaustive(fmt.Sprintf("chains: v-if + 0..3 v-else-if + optional v-else x all 2^n truth assignments x 4 separators x 4 sibling layouts x {top, div, v-for body} x {plain, all-template, one template member, one member with v-for, one negated condition}, plus two adjacent chains and orphan v-else / v-else-if in 6 positions (%d cases)", n))
+		bound := "0..3 v-else-if"
+		if !run.Thorough() {
+			bound = "0..2 v-else-if in the full product, 3 v-else-if with siblings on both sides only and without the adjacent-chain / orphan products"
+		}
+		rec.Exhaustive(fmt.Sprintf("chains: v-if + %s + optional v-else x all 2^n truth assignments x 4 separators x 4 sibling layouts x {top, div, v-for body} x {plain, all-template, one template member, one member with v-for, one negated condition}, plus two adjacent chains and orphan v-else / v-else-if in 6 positions (%d cases)", bound, n))
 	}
 
 	// ---- Family C: random deeper nestings; random values for the table
